@@ -26,6 +26,9 @@ def itermelt(h):
             cellrow = z3.And(dout.len == 1, o.len == kidx.len + 2,
                              z3.ForAll([q], z3.Implies(z3.And(0 <= q, q < kidx.len), z3.Select(o.arr, q) == kcell(q))),
                              z3.Select(o.arr, kidx.len) == as_v(v), z3.Select(o.arr, kidx.len + 1) == z3.Select(row.arr, ii))
+            variables, vix = view_seq(ls['variables']), view_seq(ls['variables_indices'])
+            ctx.oblige('itermelt: the j-th variable name is paired with the j-th variable index (names and cells are not crossed over)',
+                       z3.And(as_v(v) == z3.Select(variables.arr, ls.k.t), ii == smt.ival(z3.Select(vix.arr, ls.k.t))))
             ctx.oblige('itermelt: a (row, variable) pair yields exactly one row (key cells, variable name, that cell) if the cell exists, nothing if the row is too short',
                        z3.If(z3.And(ii >= 0, ii < row.len), cellrow, z3.If(ii >= row.len, dout.len == 0, z3.BoolVal(True))))
 
